@@ -132,7 +132,7 @@ GennaroJareckiKrawczykRabinDKG::GennaroJareckiKrawczykRabinDKG
 		throw std::invalid_argument("GennaroJareckiKrawczykRabinDKG: |QUAL| > n");
 	for (size_t i = 0; (i < qual_size) && (i < n); i++)
 	{
-		size_t who;
+		size_t who = n; // a blank line leaves the value untouched
 		std::getline(in, value);
 		std::stringstream(value) >> who;
 		if (who >= n)
